@@ -7,6 +7,7 @@ import (
 
 var Checks = map[string]func(*Env) (int, error){
 	"C06": CheckC06,
+	"C09": CheckC09,
 	"C12": CheckC12,
 	"C14": CheckC14,
 	"C18": CheckC18,
@@ -15,6 +16,7 @@ var Checks = map[string]func(*Env) (int, error){
 var Replays = map[string]func(*Env, *ReplayFile) (int, error){
 	"clisim": ReplayC18,
 	"parsim": ReplayParsim,
+	"gensim": ReplayGensim,
 }
 
 func getenv(k, def string) string {
